@@ -442,11 +442,13 @@ func checkC10(c C10Case) Verdict {
 }
 
 func genC10(t *rapid.T) C10Case {
-	g := &gen.G{T: t}
+	g := &gen.G{T: t, P: gen.Profile{RawBytes: true}}
 	return C10Case{Cmds: g.MsgStress(true)}
 }
 
 func TestC10(t *testing.T) {
+	fileRoute = true
+	defer func() { fileRoute = false }()
 	c10rec = newRecorder("C10x")
 	defer c10rec.flush()
 	runProp(t, "C10", genC10, checkC10)
